@@ -21,7 +21,12 @@ use rgverif_harness::*;
 use std::path::{Path, PathBuf};
 use std::process::Command;
 
-const PATTERNS: [&str; 8] = ["x", "ab", "a", "^b", "x$", "[ax]b", "zzz", "b x"];
+const PATTERNS: [&str; 16] = [
+    "x", "ab", "a", "^b", "x$", "[ax]b", "zzz", "b x",
+    // haystack anchors, non-multi-line anchors, (negated) word boundaries: what a line "is" for them
+    // depends on the buffer the matcher is asked about
+    "\\Aa", "x\\z", "(?-m:^)b", "x(?-m:$)", "\\Bb", "a\\B", "\\bx", "\\A",
+];
 const PATH: &str = "d/f";
 
 #[derive(Clone, Copy, Debug, PartialEq, Eq)]
@@ -218,6 +223,10 @@ struct Opts {
     /// the detection mode is set with `Searcher::set_binary_detection` AFTER `build()` (as
     /// `core/search.rs` does for every file) instead of on the builder
     late: bool,
+    /// `invert_match` / `-v`
+    invert: bool,
+    /// `--crlf`: CRLF line terminator on searcher and matcher
+    crlf: bool,
 }
 
 /// patterns that can match the terminator (only these make `multi_line(true)` a real multi-line search)
@@ -228,6 +237,13 @@ fn matcher_o(pat: &str, det: Det, o: Opts) -> Option<RegexMatcher> {
     b.multi_line(true);
     if o.ml == 0 {
         b.line_terminator(Some(b'\n'));
+    }
+    if o.crlf {
+        // as rg's hiargs does: crlf(true) sets the terminator to \n, -U takes it away again
+        b.crlf(true);
+        if o.ml > 0 {
+            b.line_terminator(None);
+        }
     }
     if det != Det::None {
         b.ban_byte(Some(0));
@@ -253,7 +269,10 @@ fn builder(det: Det, after: usize, before: usize, passthru: bool) -> SearcherBui
 /// the searcher of one run: builder settings, then (if `late`) the detection mode the way rg sets it
 fn build_searcher(det: Det, after: usize, before: usize, passthru: bool, o: Opts, strat: &Strat) -> grep_searcher::Searcher {
     let mut b = builder(if o.late { Det::None } else { det }, after, before, passthru);
-    b.multi_line(o.ml > 0);
+    b.multi_line(o.ml > 0).invert_match(o.invert);
+    if o.crlf {
+        b.line_terminator(LineTerminator::crlf());
+    }
     match strat {
         Strat::Reader { cap: Some(c), .. } => {
             b.verif_buffer_capacity(*c);
@@ -478,8 +497,28 @@ fn second_sentence(det: Det, events: &[String], out: &[u8], sx: &str, drv: &mut 
         Det::Quit => {
             // dropped, or cut off with a warning if lines were already printed
             if !out.is_empty() && !last.contains("WARNING: stopped searching binary file after match") {
+                // F19 `lines-printed-without-match-no-warning`.  Mechanism: in Quit mode the printer
+                // writes the cut-off warning only if `match_count > 0`; when only context / passthru
+                // lines were printed before the NUL the file is cut off silently.
+                // Test: (1) Quit mode; (2) `binary_data` was reported; (3) NO `matched` callback before it
+                // (match_count = 0); (4) at least one context / passthru callback before it; (5) everything
+                // that was written is context lines (`path-<n>-…`) or context separators, no match line,
+                // no notice; (6) the guard of the Lean partial theorem `C14_partial_quit` fails.
+                let b = events.iter().position(|e| e.starts_with("bin ")).unwrap_or(events.len());
+                let no_match_before = !events[..b].iter().any(|e| e.starts_with("m "));
+                let ctx_before = events[..b].iter().any(|e| e.starts_with("cB ") || e.starts_with("cA ") || e.starts_with("cO "));
+                let only_ctx_written = text.lines().all(|l| {
+                    l == "--"
+                        || l.strip_prefix("d/f-").map_or(false, |r| {
+                            r.split('-').next().map_or(false, |n| !n.is_empty() && n.bytes().all(|c| c.is_ascii_digit()))
+                        })
+                });
                 let guard = drv.ask(&format!("c14.guard quit {}", sx));
-                let class = if guard == "0" { "lines-printed-without-match-no-warning" } else { "" };
+                let class = if guard == "0" && b < events.len() && no_match_before && ctx_before && only_ctx_written {
+                    "lines-printed-without-match-no-warning"
+                } else {
+                    ""
+                };
                 return Some((
                     format!("lines were printed but the output does not end with the warning: {:?}", show(&out[..out.len().min(300)])),
                     class,
@@ -546,7 +585,7 @@ fn parse_strat(s: &str) -> Option<Strat> {
 impl Bs {
     fn case_str(&self) -> String {
         format!(
-            "bs pat={} det={} A={} B={} pt={} inp={} strat={} ml={} late={}",
+            "bs pat={} det={} A={} B={} pt={} inp={} strat={} ml={} late={} inv={} crlf={}",
             hex(self.pat.as_bytes()),
             self.det.s(),
             self.after,
@@ -555,7 +594,9 @@ impl Bs {
             input_str(&self.input),
             strat_str(&self.strat),
             self.o.ml,
-            self.o.late as u8
+            self.o.late as u8,
+            self.o.invert as u8,
+            self.o.crlf as u8
         )
     }
     fn parse(parts: &[&str]) -> Option<Bs> {
@@ -571,6 +612,8 @@ impl Bs {
             o: Opts {
                 ml: get("ml").and_then(|v| v.parse().ok()).unwrap_or(0),
                 late: get("late").map_or(false, |v| v == "1"),
+                invert: get("inv").map_or(false, |v| v == "1"),
+                crlf: get("crlf").map_or(false, |v| v == "1"),
             },
         })
     }
@@ -594,15 +637,21 @@ fn run_bs(case: &str, c: &Bs, args: &Args, drv: &mut Driver, rep: &mut Report) {
         }
     };
     // multi_line requested: which strategy that means is decided here by the rule, not by the code
+    let mut eff_ml = 0u8;
     {
         use grep_matcher::Matcher;
         let downgrades = m.line_terminator() == Some(LineTerminator::byte(b'\n'))
             || m.non_matching_bytes().map_or(false, |nm| nm.contains(b'\n'));
-        if (c.o.ml == 1 && !downgrades) || (c.o.ml == 2 && downgrades) {
-            rep.branch("bs:ml-kind-mismatch(skipped)");
-            return;
+        if c.o.ml > 0 {
+            eff_ml = if downgrades { 1 } else { 2 };
+            if eff_ml != c.o.ml {
+                // the generator guessed the other kind (e.g. `\\Aa` has no non-matching-byte set):
+                // the case is checked as the kind the rule says it is
+                rep.branch("bs:ml-kind-regenerated");
+            }
         }
     }
+    let c = &Bs { o: Opts { ml: eff_ml, ..c.o }, ..c.clone() };
     let inp = materialise(&c.input);
     let file = if let Strat::Path { .. } = c.strat { Some(scratch_file(&args.scratch, "bs", &inp)) } else { None };
     let run = lib_run_o(&m, c.det, c.after, c.before, c.passthru, &inp, &c.strat, file.as_deref(), c.o);
@@ -661,7 +710,28 @@ fn run_bs(case: &str, c: &Bs, args: &Args, drv: &mut Driver, rep: &mut Report) {
     if let Some(sx) = events_sx(&run.events) {
         let model = drv.ask(&format!("c14.print {} {} {}", c.det.s(), hex(PATH.as_bytes()), sx));
         // (the printer model renders one line per event: a really multi-line match is outside it)
-        if c.o.ml != 2 && model != hex(&run.printed) {
+        // (with a CRLF searcher the printer ends unterminated lines and `--` with \r\n, the model with \n:
+        // those cases are compared modulo a CR in front of a LF)
+        let same = if c.o.crlf {
+            rep.branch("bs:crlf(print compared modulo CRs before LF)");
+            let strip = |v: &[u8]| -> Vec<u8> {
+                let mut o = Vec::with_capacity(v.len());
+                for &b in v.iter() {
+                    if b == b'\n' {
+                        // drop the run of CRs in front of this LF
+                        while o.last() == Some(&b'\r') {
+                            o.pop();
+                        }
+                    }
+                    o.push(b);
+                }
+                o
+            };
+            unhex(&model).map_or(false, |mv| strip(&mv) == strip(&run.printed))
+        } else {
+            model == hex(&run.printed)
+        };
+        if c.o.ml != 2 && !same {
             rep.violation(Violation {
                 kind: "impl_vs_model".into(),
                 class: "".into(),
@@ -675,6 +745,7 @@ fn run_bs(case: &str, c: &Bs, args: &Args, drv: &mut Driver, rep: &mut Report) {
             });
         }
         if let Some((d, class)) = second_sentence(c.det, &run.events, &run.printed, &sx, drv) {
+            rep.branch(if class.is_empty() { "class:unclassified" } else { "class:lines-printed-without-match-no-warning:attributed" });
             rep.violation(Violation {
                 kind: "impl_vs_spec".into(),
                 class: class.into(),
@@ -718,12 +789,14 @@ struct Cli {
     input: Input,
     /// `-U` (only with patterns that cannot match a newline: the searcher falls back to line mode)
     ml: bool,
+    /// `-v`
+    invert: bool,
 }
 
 impl Cli {
     fn case_str(&self) -> String {
         format!(
-            "cli pat={} mode={} ex={} mmap={} A={} B={} pt={} inp={} U={}",
+            "cli pat={} mode={} ex={} mmap={} A={} B={} pt={} inp={} U={} v={}",
             hex(self.pat.as_bytes()),
             self.mode,
             self.explicit as u8,
@@ -732,7 +805,8 @@ impl Cli {
             self.before,
             self.passthru as u8,
             input_str(&self.input),
-            self.ml as u8
+            self.ml as u8,
+            self.invert as u8
         )
     }
     fn parse(parts: &[&str]) -> Option<Cli> {
@@ -747,6 +821,7 @@ impl Cli {
             passthru: get("pt")? == "1",
             input: parse_input(get("inp")?)?,
             ml: get("U").map_or(false, |v| v == "1"),
+            invert: get("v").map_or(false, |v| v == "1"),
         })
     }
 }
@@ -781,6 +856,9 @@ fn rg_cmd(rg: &Path, cwd: &Path, c: &Cli, count: bool) -> Vec<u8> {
     if c.ml {
         cmd.arg("-U");
     }
+    if c.invert {
+        cmd.arg("-v");
+    }
     cmd.arg("-e").arg(&c.pat);
     cmd.arg(if c.explicit { "d/f" } else { "d" });
     let out = cmd.output().expect("run rg");
@@ -809,7 +887,7 @@ fn run_cli(case: &str, c: &Cli, args: &Args, drv: &mut Driver, rep: &mut Report)
         }
     };
     // rg sets the detection mode per file AFTER building the searcher; `-U` requests multi_line
-    let o = Opts { ml: c.ml as u8, late: true };
+    let o = Opts { ml: c.ml as u8, late: true, invert: c.invert, crlf: false };
     let m = match matcher_o(&c.pat, det, o) {
         Some(m) => m,
         None => {
@@ -829,7 +907,33 @@ fn run_cli(case: &str, c: &Cli, args: &Args, drv: &mut Driver, rep: &mut Report)
             || m.non_matching_bytes().map_or(false, |nm| nm.contains(b'\n'));
         if !downgrades {
             // a really multi-line search: matches span lines, outside the printer model
-            rep.branch("cli:-U-real(skipped)");
+            // (the byte-for-byte printer comparison is skipped), but the property itself is not:
+            // the searcher contract and "no 0x00 on stdout unless --text" are checked on the real run
+            rep.branch("cli:-U-real(property-only)");
+            let strat = Strat::Path { mmap: c.mmap };
+            let run = lib_run_o(&m, det, c.after, c.before, c.passthru, &inp, &strat, Some(&file), o);
+            if let Some(d) = check_contract(det, false, &inp, &run.events) {
+                rep.violation(Violation {
+                    kind: "impl_vs_spec".into(),
+                    class: "".into(),
+                    tie: "searcher event stream (real multi-line search) vs the contract assumed by C14_stdout".into(),
+                    case: case.to_string(),
+                    detail: d,
+                });
+            }
+            let stdout = rg_cmd(&rg, &cwd, c, false);
+            if c.mode != "text" && stdout.contains(&0) {
+                rep.violation(Violation {
+                    kind: "impl_vs_spec".into(),
+                    class: "".into(),
+                    tie: "no 0x00 on rg's stdout unless --text (real multi-line search)".into(),
+                    case: case.to_string(),
+                    detail: format!("rg wrote a NUL byte: {:?}", show(&stdout[..stdout.len().min(300)])),
+                });
+            }
+            if inp.contains(&0) && !stdout.is_empty() {
+                rep.nontrivial(case);
+            }
             return;
         }
         rep.branch(if c.mmap { "cli:-U-downgraded:mmap" } else { "cli:-U-downgraded:read" });
@@ -901,6 +1005,7 @@ fn run_cli(case: &str, c: &Cli, args: &Args, drv: &mut Driver, rep: &mut Report)
         }
     } else if detected {
         if let Some((d, class)) = second_sentence(det, &run.events, &stdout, &sx, drv) {
+            rep.branch(if class.is_empty() { "class:unclassified" } else { "class:lines-printed-without-match-no-warning:attributed" });
             rep.violation(Violation {
                 kind: "impl_vs_spec".into(),
                 class: class.into(),
@@ -918,7 +1023,7 @@ fn run_cli(case: &str, c: &Cli, args: &Args, drv: &mut Driver, rep: &mut Report)
     }
     // ---- -c follows summaryCount
     if c.after == 0 && c.before == 0 && !c.passthru {
-        let n = run_count_events(&m, det, &inp, c.mmap, &file);
+        let n = run_count_events(&m, det, &inp, c.mmap, &file, o);
         let cnt = rg_cmd(&rg, &cwd, c, true);
         let want_n: usize = drv.ask(&format!("c14.count {} {} {}", det.s(), n.1.map_or("-".to_string(), |x| x.to_string()), n.0)).parse().unwrap_or(usize::MAX);
         let want = if want_n > 0 { format!("{}:{}\n", PATH, want_n).into_bytes() } else { vec![] };
@@ -941,8 +1046,8 @@ fn run_cli(case: &str, c: &Cli, args: &Args, drv: &mut Driver, rep: &mut Report)
 }
 
 /// match events and finish.binary_byte_offset of a search that is never stopped by its sink
-fn run_count_events(m: &RegexMatcher, det: Det, inp: &[u8], mmap: bool, file: &Path) -> (usize, Option<u64>) {
-    let run = lib_run(m, det, 0, 0, false, inp, &Strat::Path { mmap }, Some(file));
+fn run_count_events(m: &RegexMatcher, det: Det, inp: &[u8], mmap: bool, file: &Path, o: Opts) -> (usize, Option<u64>) {
+    let run = lib_run_o(m, det, 0, 0, false, inp, &Strat::Path { mmap }, Some(file), o);
     let n = run.events.iter().filter(|e| e.starts_with("m ")).count();
     let bo = run.events.iter().find_map(|e| e.strip_prefix("finish ")).and_then(|r| r.split(' ').nth(1).and_then(|x| x.parse().ok()));
     (n, bo)
@@ -1063,18 +1168,21 @@ struct Cli2 {
     mmap: bool,
     inp1: Input,
     inp2: Input,
+    /// `-A1`: with context (and no heading) the files' outputs are separated by the search separator `--`
+    ctx: bool,
 }
 
 impl Cli2 {
     fn case_str(&self) -> String {
         format!(
-            "cli2 pat={} mode={} ex={} mmap={} inp1={} inp2={}",
+            "cli2 pat={} mode={} ex={} mmap={} inp1={} inp2={} ctx={}",
             hex(self.pat.as_bytes()),
             self.mode,
             self.explicit as u8,
             self.mmap as u8,
             input_str(&self.inp1),
-            input_str(&self.inp2)
+            input_str(&self.inp2),
+            self.ctx as u8
         )
     }
     fn parse(parts: &[&str]) -> Option<Cli2> {
@@ -1086,6 +1194,7 @@ impl Cli2 {
             mmap: get("mmap")? == "1",
             inp1: parse_input(get("inp1")?)?,
             inp2: parse_input(get("inp2")?)?,
+            ctx: get("ctx").map_or(false, |v| v == "1"),
         })
     }
 }
@@ -1119,14 +1228,23 @@ fn run_cli2(case: &str, c: &Cli2, args: &Args, drv: &mut Driver, rep: &mut Repor
     let mut want = String::new();
     let mut both_bin = true;
     for (inp, path, name) in [(&i1, &p1, "d/f"), (&i2, &p2, "d/g")] {
-        let run = lib_run(&m, det, 0, 0, false, inp, &strat, Some(path));
+        let run = lib_run(&m, det, c.ctx as usize, 0, false, inp, &strat, Some(path));
         both_bin &= run.events.iter().any(|e| e.starts_with("bin "));
         let sx = match events_sx(&run.events) {
             Some(s) => s,
             None => return,
         };
         let model = drv.ask(&format!("c14.print {} {} {}", det.s(), hex(name.as_bytes()), sx));
-        if model != "-" {
+        if model != "-" && !model.is_empty() {
+            // with context and no heading the search separator `--` precedes whatever a later search
+            // writes first -- a line, or (since 302ce55) the "binary file matches" notice
+            if c.ctx && !want.is_empty() {
+                want.push_str(&hex(b"--\n"));
+                rep.branch("cli2:separator-between-files");
+                if model.starts_with(&hex(format!("{}: binary file matches", name).as_bytes())) {
+                    rep.branch("cli2:separator-before-notice");
+                }
+            }
             want.push_str(&model);
         }
     }
@@ -1142,6 +1260,9 @@ fn run_cli2(case: &str, c: &Cli2, args: &Args, drv: &mut Driver, rep: &mut Repor
         _ => {}
     }
     cmd.arg(if c.mmap { "--mmap" } else { "--no-mmap" });
+    if c.ctx {
+        cmd.arg("-A1");
+    }
     cmd.arg("-e").arg(&c.pat);
     if c.explicit {
         cmd.arg("d/f").arg("d/g");
@@ -1351,7 +1472,7 @@ fn run_clir(case: &str, c: &Clir, args: &Args, drv: &mut Driver, rep: &mut Repor
         Some(d) => d,
         None => return,
     };
-    let o = Opts { ml: if c.ml { 2 } else { 0 }, late: true };
+    let o = Opts { ml: if c.ml { 2 } else { 0 }, late: true, invert: false, crlf: false };
     let m = match matcher_o(&c.pat, det, o) {
         Some(m) => m,
         None => {
@@ -1367,11 +1488,12 @@ fn run_clir(case: &str, c: &Clir, args: &Args, drv: &mut Driver, rep: &mut Repor
         }
     }
     let strat = Strat::Path { mmap: c.mmap };
-    let run = lib_run_o(&m, det, 0, 0, false, &inp, &strat, Some(&file), Opts { ml: c.ml as u8, late: true });
+    let run = lib_run_o(&m, det, 0, 0, false, &inp, &strat, Some(&file), Opts { ml: c.ml as u8, late: true, invert: false, crlf: false });
     if let Some(sx) = events_sx(&run.events) {
         if run.events.iter().any(|e| e.starts_with("bin ")) && c.mode != "text" {
             rep.branch("clir:binary-detected");
             if let Some((d, class)) = second_sentence(det, &run.events, &stdout, &sx, drv) {
+                rep.branch(if class.is_empty() { "class:unclassified" } else { "class:lines-printed-without-match-no-warning:attributed" });
                 rep.violation(Violation {
                     kind: "impl_vs_spec".into(),
                     class: class.into(),
@@ -1406,6 +1528,228 @@ fn gen_clir(rng: &mut Rng) -> Clir {
             3 => 127,
             4 => 128,
             _ => rng.below(130),
+        },
+    }
+}
+
+
+// ---------------------------------------------------------------- clif cases: the property alone, any output mode
+
+/// rg with a random handful of output / search flags nobody models byte for byte. Checked: the first sentence of
+/// C14 as it stands ("no 0x00 on stdout unless text mode was asked for") and that rg does not crash.
+#[derive(Clone, Debug)]
+struct Clif {
+    pat: String,
+    mode: String,
+    explicit: bool,
+    flags: Vec<String>,
+    input: Input,
+    /// bytes put in front of the input (a UTF-16 BOM makes rg transcode)
+    bom: Vec<u8>,
+}
+
+const CLIF_FLAGS: [&str; 47] = [
+    // NUL is then the requested line terminator: detection is off by the table (`low.null_data`), checked as
+    // "equals the same run with --text"
+    "--null-data",
+    // not a flag: the file is fed on stdin and no path is given (rg treats stdin as an explicit file)
+    "<stdin", "<stdin",
+    "-l", "--files-without-match", "--count-matches", "-c", "--json", "--vimgrep", "-o", "--column", "-b",
+    "--heading", "-M10", "--max-columns-preview", "--trim", "-N", "--crlf", "-Elatin1", "-Eutf-16le", "-Enone",
+    "-m1", "--mmap", "--no-mmap", "-U", "-v", "-A1", "-B1", "-C2", "--passthru", "--stats", "-i", "-F", "-w",
+    "-x", "-r$0", "-r[$0]", "--color=always", "-I", "-H", "--no-unicode", "--context-separator=++", "-q",
+    "--no-line-number", "--field-match-separator=|", "--sort=path", "--line-buffered",
+];
+
+const CLIF_NUL_PATTERNS: [&str; 7] = ["\\x00", "[^a]+", "(?s:.)x", ".*", "x.", "\\Bx.?", "(?-u:[\\x00-\\x20])+"];
+
+impl Clif {
+    fn case_str(&self) -> String {
+        format!(
+            "clif pat={} mode={} ex={} flags={} bom={} inp={}",
+            hex(self.pat.as_bytes()),
+            self.mode,
+            self.explicit as u8,
+            hex(self.flags.join(" ").as_bytes()),
+            if self.bom.is_empty() { "-".to_string() } else { hex(&self.bom) },
+            input_str(&self.input)
+        )
+    }
+    fn parse(parts: &[&str]) -> Option<Clif> {
+        let get = |k: &str| parts.iter().find_map(|p| p.strip_prefix(k).and_then(|r| r.strip_prefix('=')));
+        let flags = String::from_utf8(unhex(get("flags")?)?).ok()?;
+        Some(Clif {
+            pat: String::from_utf8(unhex(get("pat")?)?).ok()?,
+            mode: get("mode")?.to_string(),
+            explicit: get("ex")? == "1",
+            flags: flags.split(' ').filter(|f| !f.is_empty()).map(|f| f.to_string()).collect(),
+            bom: match get("bom")? {
+                "-" => vec![],
+                v => unhex(v)?,
+            },
+            input: parse_input(get("inp")?)?,
+        })
+    }
+}
+
+fn run_clif(case: &str, c: &Clif, args: &Args, rep: &mut Report) {
+    let rg = match &args.rg {
+        Some(p) => p.clone(),
+        None => {
+            rep.branch("clif:skipped-no-rg");
+            return;
+        }
+    };
+    rep.eval();
+    let mut inp = c.bom.clone();
+    inp.extend(materialise(&c.input));
+    let _file = scratch_file(&args.scratch, "clif", &inp);
+    let cwd = args.scratch.join("clif");
+    let mut cmd = Command::new(&rg);
+    cmd.current_dir(&cwd).env_clear();
+    cmd.arg("--no-config").arg("-n").arg("--color=never");
+    match c.mode.as_str() {
+        "binary" => {
+            cmd.arg("--binary");
+        }
+        "text" => {
+            cmd.arg("--text");
+        }
+        _ => {}
+    }
+    let stdin = c.flags.iter().any(|f| f == "<stdin");
+    for f in &c.flags {
+        if f != "<stdin" {
+            cmd.arg(f);
+        }
+        rep.branch(&format!("clif:flag:{}", f));
+    }
+    cmd.arg("-e").arg(&c.pat);
+    if stdin {
+        cmd.stdin(std::fs::File::open(cwd.join("d/f")).expect("open scratch file"));
+    } else {
+        cmd.arg(if c.explicit { "d/f" } else { "d" });
+    }
+    let out = cmd.output().expect("run rg");
+    let err = String::from_utf8_lossy(&out.stderr).to_string();
+    if err.contains("panicked") || out.status.code().is_none() {
+        rep.violation(Violation {
+            kind: "impl_vs_spec".into(),
+            class: "".into(),
+            tie: "rg must not crash on binary input, whatever the output mode".into(),
+            case: case.to_string(),
+            detail: format!("rg ended with {:?}: {}", out.status.code(), &err[..err.len().min(300)]),
+        });
+        return;
+    }
+    if out.status.code() == Some(2) && out.stdout.is_empty() {
+        rep.branch("clif:rg-error(flags/pattern)");
+        return;
+    }
+    rep.branch(&format!("clif:{}:{}", c.mode, if c.explicit { "explicit" } else { "implicit" }));
+    // (a later --crlf takes --null-data back: `defs.rs`, "This flag overrides --null-data")
+    let null_data = match (c.flags.iter().position(|f| f == "--null-data"), c.flags.iter().position(|f| f == "--crlf")) {
+        (Some(z), Some(cr)) => z > cr,
+        (Some(_), None) => true,
+        _ => false,
+    };
+    if null_data {
+        // --null-data asks for NUL-terminated records: the property does not quantify over it, but the
+        // detection table says what it means -- the same as text mode
+        rep.branch("clif:null-data(compared with --text)");
+        if c.mode != "text" {
+            let mut cmd2 = Command::new(&rg);
+            cmd2.current_dir(&cwd).env_clear();
+            cmd2.arg("--no-config").arg("-n").arg("--color=never").arg("--text");
+            for f in &c.flags {
+                if f != "<stdin" {
+                    cmd2.arg(f);
+                }
+            }
+            cmd2.arg("-e").arg(&c.pat);
+            if stdin {
+                cmd2.stdin(std::fs::File::open(cwd.join("d/f")).expect("open scratch file"));
+            } else {
+                cmd2.arg(if c.explicit { "d/f" } else { "d" });
+            }
+            let out2 = cmd2.output().expect("run rg");
+            let drop_stats = |v: &[u8]| -> Vec<u8> {
+                // --stats prints timings
+                String::from_utf8_lossy(v).lines().filter(|l| !l.contains("seconds") && !l.contains("\"elapsed")).collect::<Vec<_>>().join("\n").into_bytes()
+            };
+            if drop_stats(&out.stdout) != drop_stats(&out2.stdout) {
+                rep.violation(Violation {
+                    kind: "impl_vs_spec".into(),
+                    class: "".into(),
+                    tie: "detection_table: --null-data means no binary detection, i.e. the same output as with --text".into(),
+                    case: case.to_string(),
+                    detail: format!(
+                        "rg {} wrote {:?}, with --text {:?}",
+                        c.flags.join(" "),
+                        show(&out.stdout[..out.stdout.len().min(300)]),
+                        show(&out2.stdout[..out2.stdout.len().min(300)])
+                    ),
+                });
+            }
+        }
+        return;
+    }
+    if c.mode != "text" && out.stdout.contains(&0) {
+        rep.violation(Violation {
+            kind: "impl_vs_spec".into(),
+            class: "".into(),
+            tie: "no 0x00 on rg's stdout unless --text, in every output mode".into(),
+            case: case.to_string(),
+            detail: format!(
+                "rg {} wrote a NUL byte: {:?}",
+                c.flags.join(" "),
+                show(&out.stdout[..out.stdout.len().min(300)])
+            ),
+        });
+    }
+    if inp.contains(&0) && !out.stdout.is_empty() {
+        rep.nontrivial(case);
+    }
+}
+
+fn gen_clif(rng: &mut Rng) -> Clif {
+    let mut flags: Vec<String> = vec![];
+    for _ in 0..rng.range(1, 5) {
+        let f = rng.pick(&CLIF_FLAGS).to_string();
+        if !flags.contains(&f) {
+            flags.push(f);
+        }
+    }
+    let ml = flags.iter().any(|f| f == "-U");
+    let pat = if ml && rng.chance(1, 2) {
+        rng.pick(&ML_PATTERNS).to_string()
+    } else if rng.chance(1, 3) {
+        // patterns that can match the NUL byte itself
+        rng.pick(&CLIF_NUL_PATTERNS).to_string()
+    } else {
+        rng.pick(&PATTERNS).to_string()
+    };
+    let input = match rng.below(6) {
+        0 => Input::Bnd {
+            seed: rng.next() % 100000,
+            total: SNIFF_WINDOW + 3000,
+            nul: SNIFF_WINDOW + rng.below(4) - 2,
+            delivered: rng.chance(1, 2),
+            later: true,
+        },
+        1 => Input::Gen(rng.next(), rng.range(3500, 6000), rng.range(60000, 110000)),
+        _ => Input::Hex(gen_binary_input(rng, &pat)),
+    };
+    Clif {
+        pat,
+        mode: rng.pick(&["auto", "auto", "binary", "binary", "text"]).to_string(),
+        explicit: rng.chance(1, 2),
+        flags,
+        input,
+        bom: match rng.below(12) {
+            0 => vec![0xff, 0xfe],
+            1 => vec![0xef, 0xbb, 0xbf],
+            _ => vec![],
         },
     }
 }
@@ -1489,6 +1833,24 @@ fn gen_bs(rng: &mut Rng, big: bool) -> Bs {
     } else {
         Input::Hex(gen_binary_input(rng, &pat))
     };
+    let crlf = !big && rng.chance(1, 6);
+    let input = match input {
+        Input::Hex(mut v) if crlf => {
+            // CRLF terminators on most lines, a bare CR now and then
+            let mut i = 0;
+            while i < v.len() {
+                if v[i] == b'\n' && rng.chance(2, 3) {
+                    v.insert(i, b'\r');
+                    i += 1;
+                } else if v[i] == b' ' && rng.chance(1, 10) {
+                    v[i] = b'\r';
+                }
+                i += 1;
+            }
+            Input::Hex(v)
+        }
+        i => i,
+    };
     let len = materialise(&input).len();
     let strat = match rng.below(if big { 4 } else { 6 }) {
         0 => Strat::Slice,
@@ -1511,9 +1873,12 @@ fn gen_bs(rng: &mut Rng, big: bool) -> Bs {
         passthru,
         input,
         strat,
-        o: Opts { ml, late: rng.chance(1, 2) },
+        o: Opts { ml, late: rng.chance(1, 2), invert: rng.chance(1, 5), crlf },
     }
 }
+
+const BND_PATTERNS: [&str; 10] =
+    ["\\Aa", "x\\z", "(?-m:^)b", "x(?-m:$)", "\\Bx", "x\\B", "\\bx", "\\A", "\\z", "(?-m:$)"];
 
 /// One NUL at a window boundary (-2, -1, 0, +1): the 64 KiB sniff window of the slice strategies
 /// (slice, mmap, `MultiLine::run`, and the reader for comparison), or a fill boundary of a small
@@ -1546,14 +1911,22 @@ fn gen_bs_bnd(rng: &mut Rng) -> Bs {
     };
     let ml: u8 = if sniff { *rng.pick(&[0u8, 0, 1, 2]) } else { *rng.pick(&[0u8, 1]) };
     Bs {
-        pat: if ml == 2 { "x\\n?".into() } else { "x".into() },
+        // half the cases: haystack anchors / non-multi-line anchors / word boundaries, whose notion of
+        // "start" and "end" could move with the window the matcher is shown
+        pat: if ml == 2 {
+            rng.pick(&["x\\n?", "x\\n?", "x\\z|x\\n", "\\Aa|\\nx"]).to_string()
+        } else if rng.chance(1, 2) {
+            rng.pick(&BND_PATTERNS).to_string()
+        } else {
+            "x".into()
+        },
         det: *rng.pick(&[Det::Quit, Det::Quit, Det::Convert]),
         after: rng.below(2),
         before: rng.below(2),
         passthru: false,
         input,
         strat,
-        o: Opts { ml, late: rng.chance(1, 2) },
+        o: Opts { ml, late: rng.chance(1, 2), invert: rng.chance(1, 6), crlf: rng.chance(1, 6) },
     }
 }
 
@@ -1574,7 +1947,7 @@ fn gen_bs_ctx(rng: &mut Rng) -> Bs {
         passthru,
         input: Input::Ctx(rng.next() % 100000, kind),
         strat: if rng.chance(1, 2) { Strat::Slice } else { Strat::Path { mmap: true } },
-        o: Opts { ml: *rng.pick(&[0u8, 0, 1]), late: rng.chance(1, 2) },
+        o: Opts { ml: *rng.pick(&[0u8, 0, 1]), late: rng.chance(1, 2), invert: false, crlf: false },
     }
 }
 
@@ -1596,13 +1969,14 @@ fn gen_cli_ctx(rng: &mut Rng) -> Cli {
         passthru,
         input: Input::Ctx(rng.next() % 100000, kind),
         ml: rng.chance(1, 3),
+        invert: false,
     }
 }
 
 /// rg on a file with one NUL at the edge of the 64 KiB sniff window (-2..+1)
 fn gen_cli_bnd(rng: &mut Rng) -> Cli {
     Cli {
-        pat: "x".into(),
+        pat: if rng.chance(1, 2) { rng.pick(&BND_PATTERNS).to_string() } else { "x".into() },
         mode: rng.pick(&["auto", "auto", "binary"]).to_string(),
         explicit: rng.chance(1, 3),
         mmap: rng.chance(2, 3),
@@ -1617,6 +1991,7 @@ fn gen_cli_bnd(rng: &mut Rng) -> Cli {
             later: true,
         },
         ml: rng.chance(1, 3),
+        invert: rng.chance(1, 5),
     }
 }
 
@@ -1654,6 +2029,7 @@ fn gen_cli2(rng: &mut Rng) -> Cli2 {
         mode: rng.pick(&["auto", "binary", "binary", "text"]).to_string(),
         explicit: rng.chance(1, 2),
         mmap: rng.chance(1, 3),
+        ctx: rng.chance(1, 2),
     }
 }
 
@@ -1676,6 +2052,7 @@ fn gen_cli(rng: &mut Rng, big: bool) -> Cli {
         passthru: rng.chance(1, 12),
         input,
         ml: rng.chance(1, 3),
+        invert: rng.chance(1, 5),
     }
 }
 
@@ -1702,6 +2079,10 @@ fn run_case(case: &str, args: &Args, drv: &mut Driver, rep: &mut Report) {
             Some(c) => run_cli2(case, &c, args, drv, rep),
             None => rep.notes.push(format!("unparsable case: {}", case)),
         },
+        Some("clif") => match Clif::parse(&parts) {
+            Some(c) => run_clif(case, &c, args, rep),
+            None => rep.notes.push(format!("unparsable case: {}", case)),
+        },
         Some("clir") => match Clir::parse(&parts) {
             Some(c) => run_clir(case, &c, args, drv, rep),
             None => rep.notes.push(format!("unparsable case: {}", case)),
@@ -1721,7 +2102,7 @@ fn main() {
         "C14",
         "lb: roll buffer in Quit/Convert mode (bytes NUL, 'x', the terminator itself) x capacities x read scripts x \
          fill/consume sequences; non-trivial = rolled and smaller than the input. \
-         bs: 8 patterns x detection none/quit/convert x slice / reader (capacity 1..64 via hook, scripted reads) / path \
+         bs: 16 patterns x detection none/quit/convert x slice / reader (capacity 1..64 via hook, scripted reads) / path \
          with and without mmap x contexts 0..2 / passthru x inputs with NUL at: first byte, last byte, inside a line, \
          first byte of a line, in place of a terminator, several, none, beyond 64 KiB (long inputs). \
          cli: rg binary x implicit (directory argument) / explicit file x default / --binary / --text x --mmap / --no-mmap, \
@@ -1731,7 +2112,11 @@ fn main() {
          clir: rg -r '$0' / '$1' / -o -r, line-oriented and -U (patterns whose re-found match reaches beyond the reported \
          lines at the 128-byte look-ahead cut), all binary modes, a NUL right behind the matched block, before and beyond the \
          64 KiB sniff window. \
-         Excluded: --null-data (NUL is then the requested line terminator), encodings, preprocessors. \
+         clif: rg with 1-4 random output / search flags (--json, --vimgrep, -c, -l, -o, -M, --trim, --color=always, -E, \
+         --crlf, -U, -v, stdin, ...), UTF-8/UTF-16 BOMs, patterns that match the NUL itself: no 0x00 on stdout unless --text, \
+         no crash; --null-data writes what --text writes. bs/cli also: \\A \\z (?-m:^) (?-m:$) \\B \\b patterns (also at the \
+         window boundaries), -v, --crlf, really multi-line -U on the binary (contract + property). \
+         Not generated: --null (-0), preprocessors, --search-zip. \
          Non-trivial (bs, cli) = binary data was detected and at least one line matched. Distinct by case text.",
     );
     quiet_panics();
@@ -1741,8 +2126,11 @@ fn main() {
     if args.replay.is_none() {
         let mut rng = Rng::new(args.seed);
         let n = args.cases.unwrap_or(if args.thorough { 30000 } else { 2400 });
+        let only_stream = std::env::var("RGV_C14_STREAM").ok();
         for i in 0..n {
             let case = match i % 4 {
+                // probing aid: RGV_C14_STREAM=clif runs that stream alone
+                _ if only_stream.as_deref() == Some("clif") => gen_clif(&mut rng).case_str(),
                 0 if i % 12 == 4 => {
                     let bin = *rng.pick(&[Bin::Quit(0), Bin::Convert(0), Bin::Convert(0), Bin::Quit(b'x'), Bin::Convert(b'x')]);
                     let (c, pre) = gen_lb2_case(&mut rng, bin);
@@ -1766,6 +2154,7 @@ fn main() {
                 _ if i % 40 == 7 => gen_cli_ctx(&mut rng).case_str(),
                 _ if i % 40 == 27 => gen_cli_bnd(&mut rng).case_str(),
                 _ if i % 20 == 11 || i % 20 == 19 => gen_clir(&mut rng).case_str(),
+                _ if i % 20 == 15 => gen_clif(&mut rng).case_str(),
                 _ if i % 8 == 3 => gen_cli2(&mut rng).case_str(),
                 _ => gen_cli(&mut rng, i % 60 == 3).case_str(),
             };
